@@ -531,3 +531,106 @@ reg(Row("IdleMomentsGauge", ("IdleMomentsGauge",), _idle,
         opts=st.fixed_dictionaries({"seed": st.integers(0, 2 ** 31), "gen": st.booleans(), "g": st.integers(0, 3), "min": st.integers(0, 2),
                                     "b": st.booleans(), "e": st.booleans()}),
         unitary=U(sub=0.05, max_arity=2), records=M(sub=0.05), deep=False, weight=4))
+
+
+# ------------------------------------------------------------------------------------------ ignored operations that share a moment
+
+
+def ign_moment_shape(records: bool):
+    """[staggering ops] [one moment holding >= 2 ignore-tagged ops on different qubits (NEW, then INLINE)] [non-ignored followers on
+    those qubits, two-qubit followers across them, feed-forward / re-measurement on their keys].  The shape in which a re-scheduling
+    pass has to keep its bookkeeping for ignored operations consistent with where it finally puts them."""
+
+    def shape(dims):
+        @st.composite
+        def tail(draw):
+            qw = [i for i, d in enumerate(dims) if d == 2]
+            ws = list(draw(st.permutations(qw)))
+            k = draw(st.integers(2, min(3, len(ws))))
+            ign_w, rest = ws[:k], ws[k:]
+            one_q = G.gate_recipes(lambda f: f.unitary and not f.qudit and f.arity == 1, max_arity=1)
+            two_q = G.gate_recipes(lambda f: f.unitary and not f.qudit and f.arity == 2, max_arity=2)
+            ops = []
+
+            def add(kind, g, w, ins=0, tag=0, **kw):
+                o = {"k": kind, "w": w, "ins": ins, "tag": tag}
+                if g is not None:
+                    o["g"] = g
+                o.update(kw)
+                ops.append(o)
+
+            # 1. different earliest slots for the wires of the ignored moment
+            depths = list(draw(st.permutations([0, 1, 2, 3])))[:k]
+            for w, d in zip(ign_w, depths):
+                for _ in range(d):
+                    add("g", draw(one_q), [w])
+            if rest and draw(st.booleans()):
+                add("g", draw(two_q), [draw(st.sampled_from(ign_w)), rest[0]])
+            # 2. the moment with the ignored operations
+            first = True
+            used = []
+            pair = k == 3 and draw(st.integers(0, 2)) == 0
+            groups = [[ign_w[0], ign_w[1]], [ign_w[2]]] if pair else [[w] for w in ign_w]
+            measured = False
+            for grp in groups:
+                ins = 1 if first else 2
+                first = False
+                if records and len(grp) == 1 and draw(st.integers(0, 3)) == 0:
+                    add("m", None, grp, ins, 1, key=draw(st.integers(0, 2)))
+                    measured = True
+                elif records and len(grp) == 1 and draw(st.integers(0, 5)) == 0:
+                    add("cc", draw(one_q), grp, ins, 1, conds=[{"t": "key", "ki": draw(st.integers(0, 3)), "index": -1}])
+                else:
+                    add("g", draw(two_q if len(grp) == 2 else one_q), grp, ins, 1)
+                used += grp
+            if rest and draw(st.integers(0, 2)) == 0:
+                add("g", draw(one_q), [rest[-1]], 2, draw(st.sampled_from([0, 0, 2])))
+            # 3. followers
+            for w in ign_w:
+                if draw(st.integers(0, 4)) != 0:
+                    add("g", draw(one_q), [w], draw(st.sampled_from([0, 0, 0, 1])))
+            if draw(st.booleans()):
+                a, b = list(draw(st.permutations(ign_w)))[:2]
+                add("g", draw(two_q), [a, b])
+            if records:
+                if measured and draw(st.booleans()):
+                    tgt = draw(st.sampled_from(qw))
+                    add("cc", draw(one_q), [tgt], 0, 0, conds=[{"t": "key", "ki": -1, "index": -1}])
+                if draw(st.booleans()):
+                    add("m", None, [draw(st.sampled_from(ign_w))], 0, draw(st.sampled_from([0, 0, 1])), key=draw(st.integers(0, 2)))
+            return ops
+
+        return tail()
+
+    return shape
+
+
+def _either(*shapes):
+    def shape(dims):
+        return st.integers(0, len(shapes) - 1).flatmap(lambda i: shapes[i](dims))
+
+    return shape
+
+
+# rows that re-schedule / merge around operations carrying an ignored tag
+_IGN_ROWS = {
+    "stratified_circuit": 6, "align_left": 5, "align_right": 5, "synchronize_terminal_measurements": 5,
+    "merge_operations": 4, "merge_operations_to_circuit_op": 4, "merge_k_qubit_unitaries": 4, "merge_k_qubit_unitaries_to_circuit_op": 4,
+    "merge_moments": 3, "merge_moments_batch": 3, "merge_single_qubit_gates_to_phxz": 3, "merge_single_qubit_gates_to_phased_x_and_z": 3,
+    "merge_single_qubit_moments_to_phxz": 3, "map_operations": 2, "map_operations_and_unroll": 2, "drop_diagonal_before_measurement": 2,
+    "eject_z": 0, "eject_phased_paulis": 0, "IdleMomentsGauge": 3, "CPhaseGaugeTransformerMM": 2, "expand_composite": 2,
+    "drop_negligible_operations": 2,
+}
+for _name, _p in _IGN_ROWS.items():
+    _row = ROWS[_name]
+    for _kind in ("unitary", "records"):
+        _cfg = getattr(_row, _kind)
+        if _cfg is None:
+            continue
+        _shape = ign_moment_shape(_kind == "records")
+        if _cfg.tail is None:
+            _cfg.tail, _cfg.tail_p = _shape, _p
+        else:
+            _cfg.tail = _either(_cfg.tail, _cfg.tail, _shape)  # keep the row's own shape twice as likely
+ROWS["stratified_circuit"].ign_p = 5
+ROWS["stratified_circuit"].weight = 4
